@@ -2,15 +2,19 @@
 (***************************************************************************)
 (* Trace judge for text preprocessing (impl -> spec), judging style.       *)
 (* One event per call of allsorts::scripts::preprocess_text:               *)
-(*    a = [tag, in]   o = [out, panic]                                     *)
+(*    a = [tag, in]   o = [out, panic, mg, mgpanic]                        *)
+(* (mg: the unicodes of the glyphs Font::map_glyphs returned for the same  *)
+(* text and tag - the observation point the property names)                *)
 (* The event conforms iff                                                  *)
 (*   - no clause of the relational property fails on (in, out)             *)
 (*     (Preprocess!RelFailures: content, bases, insertions, runs, stable / *)
 (*     amtra / identity / sorted), and                                     *)
 (*   - out is the result of the script's documented pipeline under one of  *)
 (*     the readings of the named deviations ("function").                  *)
-(* A call that panicked does not conform ("panic"): every code point       *)
-(* sequence is inside the property's quantifier.                           *)
+(*   - mg, with variation selectors set aside, is that same documented     *)
+(*     result with variation selectors set aside ("mapglyphs").            *)
+(* A call that panicked does not conform ("panic", "mgpanic"): every code  *)
+(* point sequence is inside the property's quantifier.                     *)
 (* An event that conforms only under a "dev" reading is reported as DEV    *)
 (* (an observation, not a violation).  The class table is the file named   *)
 (* by env C17_MCC (allsorts' own table; its values are constrained by      *)
@@ -27,6 +31,8 @@ Failures(e) ==
   IF e.o.panic # "" THEN {"panic"}
   ELSE LET wants == {Expected(e.a.tag, r, e.a.in) : r \in Readings(e.a.tag)} IN
        RelFailures(e.a.tag, e.a.in, e.o.out) \cup (IF e.o.out \in wants THEN {} ELSE {"function"})
+       \cup (IF e.o.mgpanic # "" THEN {"mgpanic"}
+             ELSE IF NoVS(e.o.mg) \in {NoVS(w) : w \in wants} THEN {} ELSE {"mapglyphs"})
 
 TInit == l = 1
 
@@ -43,7 +49,7 @@ TNext ==
         ELSE PrintT(<<"MISMATCH", ToJson([i |-> e.i, case |-> e.case, tag |-> e.a.tag,
                                           family |-> Family(e.a.tag), fails |-> SetToSeq(f),
                                           in |-> e.a.in, want |-> want, got |-> e.o.out,
-                                          panic |-> e.o.panic])>>)
+                                          panic |-> e.o.panic, mg |-> e.o.mg, mgpanic |-> e.o.mgpanic])>>)
 
 TSpec == TInit /\ [][TNext]_tvars
 
